@@ -14,6 +14,17 @@ class AnalysisError(Exception):
     source unparsable).  Never a pass, never a violation: exit status 2."""
 
 
+class ShapeError(AnalysisError):
+    """The anchors are all present but the construct does not have a shape any rule recognises (e.g. a
+    constructor parameter that no longer reaches a field as itself).  An undischarged obligation: reported
+    as a violation of the property being checked (exit 1), naming the construct."""
+
+    def __init__(self, msg, where=None, construct=None):
+        AnalysisError.__init__(self, msg)
+        self.where = where
+        self.construct = construct
+
+
 def read_tree(root):
     """Return {relpath: text} for every .py file of the netconan package."""
     out = {}
@@ -118,9 +129,63 @@ def lower_generator(fn_node):
     return new
 
 
+def lower_result_variable(fn_node):
+    """for ...: ... x = E; break  /  return x      ==      for ...: ... return E  /  return x
+    (a search loop that leaves through `break` with its result in a variable which is returned right after the loop).
+    Returns a rewritten copy of the function, or None when the shape does not occur."""
+    import copy
+    changed = [False]
+
+    def rewrite_block(blk, loop_ok_name):
+        """Inside the body of the candidate loop (not descending into nested loops): `x = E; break` -> `return E`."""
+        out = []
+        i = 0
+        while i < len(blk):
+            st = blk[i]
+            if (isinstance(st, ast.Assign) and len(st.targets) == 1 and isinstance(st.targets[0], ast.Name) and st.targets[0].id == loop_ok_name
+                    and i + 1 < len(blk) and isinstance(blk[i + 1], ast.Break)):
+                ret = ast.Return(value=st.value)
+                out.append(ast.fix_missing_locations(ast.copy_location(ret, st)))
+                changed[0] = True
+                i += 2
+                continue
+            if isinstance(st, ast.If):
+                st.body = rewrite_block(st.body, loop_ok_name)
+                st.orelse = rewrite_block(st.orelse, loop_ok_name)
+            elif isinstance(st, ast.With):
+                st.body = rewrite_block(st.body, loop_ok_name)
+            elif isinstance(st, ast.Try):
+                pass  # a return inside try/finally is not the same as break: left alone
+            out.append(st)
+            i += 1
+        return out
+
+    def walk_blocks(blk):
+        for i, st in enumerate(blk):
+            if isinstance(st, (ast.For, ast.While)) and not st.orelse and i + 1 < len(blk) and isinstance(blk[i + 1], ast.Return) and isinstance(blk[i + 1].value, ast.Name):
+                name = blk[i + 1].value.id
+                # the variable must not be read inside the loop (it is only the result slot)
+                reads = [n for n in ast.walk(st) if isinstance(n, ast.Name) and n.id == name and isinstance(n.ctx, ast.Load)]
+                if not reads:
+                    st.body = rewrite_block(st.body, name)
+            for field in ("body", "orelse", "finalbody"):
+                sub = getattr(st, field, None)
+                if isinstance(sub, list) and sub and isinstance(sub[0], ast.stmt) and not isinstance(st, (ast.FunctionDef, ast.AsyncFunctionDef, ast.ClassDef)):
+                    walk_blocks(sub)
+            if isinstance(st, ast.Try):
+                for h in st.handlers:
+                    walk_blocks(h.body)
+    new = copy.deepcopy(fn_node)
+    walk_blocks(new.body)
+    return new if changed[0] else None
+
+
 class FunctionInfo:
     def __init__(self, qualname, node, module, cls=None):
         self.qualname = qualname  # e.g. netconan.ip_anonymization._BaseIpAnonymizer.anonymize
+        low_rv = lower_result_variable(node)
+        if low_rv is not None:
+            node = low_rv
         # a generator function is analysed through its list-returning twin (the original is kept for loop fusion)
         self.gen_orig = None
         if is_generator_def(node):
